@@ -92,22 +92,26 @@ static JanetBuffer *mk_buffer(void) {
 
 /* ---- assumed bulk-copy models (rule R10) ------------------------------------------------------------------
  * memcpy/memmove/memset of symbolic size: the call site must show both ranges valid for n bytes (memcpy: and
- * disjoint) - these are counted obligations ("memcpy model: ..."). Effect: the destination range becomes arbitrary
- * except the element at ghost offset g_mm (unconstrained => any offset), which receives the value the source had
- * there BEFORE the call (memset: the fill byte). n == 0 is a no-op with no requirement on the pointers (ISO C formally
- * wants valid pointers even then; array/remove on an array without a block calls memmove(NULL, NULL, 0), harmless
- * on every libc and therefore not counted). */
+ * disjoint) - these are counted obligations ("memcpy model: ..."). n == 0 is a no-op with no requirement on the
+ * pointers (ISO C formally wants valid pointers even then; array/remove on an array without a block calls
+ * memmove(NULL, NULL, 0), harmless on every libc and therefore not counted).
+ * Effect, POINTWISE model: the element at ghost offset g_mm (unconstrained => any offset) receives the value the
+ * source had there BEFORE the call (memset: the fill byte), and ONE other arbitrary element of the destination
+ * range becomes arbitrary. Because g_mm and that element are chosen nondeterministically, every postcondition that
+ * speaks about a single element of the destination range is decided exactly as under the full copy: for the
+ * matching g_mm it sees the copied value, and any claim that does not follow from the copy is refuted by the run
+ * that makes that element arbitrary. (The contracts only make single-element claims; nothing in the functions under
+ * proof reads the copied range afterwards. A whole-range havoc was probed first: correct but its symbolic-size
+ * nondet arrays made solving and trace building take minutes.) */
 size_t g_mm;
 static void seq_copy_model(void *d, const void *s, size_t n) {
   size_t k = n / sizeof(seq_elem_t);
   __CPROVER_assert(k * sizeof(seq_elem_t) == n, "copy model: size is a multiple of the element size");
-  if (g_mm < k) {
-    seq_elem_t v = ((const seq_elem_t *)s)[g_mm];
-    __CPROVER_havoc_slice(d, n);
-    ((seq_elem_t *)d)[g_mm] = v;
-  } else {
-    __CPROVER_havoc_slice(d, n);
-  }
+  seq_elem_t v, w;           /* w: arbitrary */
+  size_t j = nd_size();
+  if (g_mm < k) v = ((const seq_elem_t *)s)[g_mm];
+  if (j < k) ((seq_elem_t *)d)[j] = w;
+  if (g_mm < k) ((seq_elem_t *)d)[g_mm] = v;
 }
 void *memmove(void *d, const void *s, size_t n) {
   __CPROVER_assert(n == 0 || __CPROVER_r_ok(s, n), "memmove model: source range readable");
@@ -127,8 +131,9 @@ void *memcpy(void *d, const void *s, size_t n) {
 void *memset(void *d, int c, size_t n) {
   __CPROVER_assert(n == 0 || __CPROVER_w_ok(d, n), "memset model: destination range writable");
   if (n > 0) {
-    __CPROVER_havoc_slice(d, n);
-    if (g_mm < n) ((uint8_t *)d)[g_mm] = (uint8_t)c;
+    size_t j = nd_size(); uint8_t w;   /* arbitrary */
+    if (j < n) ((uint8_t *)d)[j] = w;
+    if (g_mm < n) ((uint8_t *)d)[g_mm] = (uint8_t)(c & 0xFF);
   }
   return d;
 }
